@@ -1,5 +1,5 @@
 //! C07 — read calls are pure and the alternative access paths agree.
-//! E2: every call sequence up to depth 3 (thorough 4) over the Reader / ReaderRef API of one feature-rich
+//! E2: every call sequence up to depth 3 (thorough 5) over the Reader / ReaderRef API of one feature-rich
 //! workbook per format, replayed on a fresh reader; differential oracle: each result equals the same
 //! call made first on a fresh reader under the header-row option then in force.
 use crate::engine::report::{Replay, Report};
@@ -18,7 +18,8 @@ const FORMATS: [&str; 4] = ["xlsx", "xlsb", "xls", "ods"];
 const S: [&str; 3] = ["Data", "Second", "Other"];
 
 fn project() -> VProject {
-    VProject { codepage: 1252, modules: vec![VModule { name: "Module1".into(), stream_name: "Module1".into(), source: b"Sub A()\r\nEnd Sub\r\n".to_vec(), text_offset: 0, mode: 0, class_module: false, read_only: false, private: false }], refs: vec![VRef { name: "stdole".into(), kind: RefKind::Registered }], compat_version: false, descriptive: false }
+    VProject { codepage: 1252, // five modules: the order in which a project lists them must not change from call to call or reader to reader
+        modules: ["Module1", "ThisWorkbook", "Sheet1", "Helpers", "AaModule"].iter().enumerate().map(|(i, n)| VModule { name: n.to_string(), stream_name: n.to_string(), source: format!("Sub A{i}()\r\nEnd Sub\r\n").into_bytes(), text_offset: 0, mode: 0, class_module: i == 1 || i == 2, read_only: false, private: false }).collect(), refs: vec![VRef { name: "stdole".into(), kind: RefKind::Registered }], compat_version: false, descriptive: false }
 }
 
 pub fn workbook(fmt: &str) -> Vec<u8> {
@@ -43,7 +44,7 @@ pub fn workbook(fmt: &str) -> Vec<u8> {
             }
             let mut s0 = xlsx::XSheet::new(S[0], cells);
             s0.merges = vec!["B2:C2".into(), "E8:F9".into()];
-            s0.tables = vec![xlsx::XTable { name: "T1".into(), display_name: "T1".into(), rf: "B2:D6".into(), header_rows: None, totals_rows: None, totals_row_shown: None, columns: vec!["k".into(), "v".into(), "d".into()] }];
+            s0.tables = vec![xlsx::XTable { name: "T1".into(), display_name: "T1".into(), rf: "B2:D6".into(), header_rows: None, totals_rows: None, totals_row_shown: None, columns: vec!["k".into(), "v".into(), "d".into()], extras: false }];
             b.sheets.push(s0);
             let mut ch = xlsx::XSheet::new(S[1], vec![]); ch.kind = xlsx::SheetKind::Chart; b.sheets.push(ch);
             let mut o = xlsx::XCell::new(0, 0, xlsx::XVal::Num("3".into())); o.formula = Some(xlsx::XFormula::Plain("1+2".into()));
@@ -201,11 +202,79 @@ fn call_name(fmt: &str, c: usize) -> String {
     if c < nc { COMMON[c].to_string() } else if c < nc + 3 { OPTS[c - nc].to_string() } else { extra_calls(fmt)[c - nc - 3].to_string() }
 }
 
+
+/// Path agreement over the repository's own fixture corpus (every workbook under <repo>/tests that opens): for every listed
+/// sheet, range by name == range by index == the entry of worksheets(); an unknown name is an error; formula reads do not
+/// report a listed worksheet as missing. The files are whatever the repository ships (a second, independent alphabet of
+/// physical encodings written by real applications); files that do not open are skipped and counted.
+fn corpus_paths(rep: &Report) {
+    let root = std::env::var("VERIF_REPO").unwrap_or_else(|_| "/repo".into());
+    let mut files: Vec<std::path::PathBuf> = match std::fs::read_dir(format!("{root}/tests")) {
+        Ok(d) => d.filter_map(|e| e.ok().map(|e| e.path())).filter(|p| matches!(p.extension().and_then(|e| e.to_str()), Some("xls" | "xlsx" | "xlsm" | "xlsb" | "ods" | "xla" | "xlam"))).collect(),
+        Err(_) => vec![],
+    };
+    files.sort();
+    let opened = std::sync::atomic::AtomicU64::new(0);
+    let sheets_checked = std::sync::atomic::AtomicU64::new(0);
+    files.par_iter().for_each(|path| {
+        let fname = path.file_name().unwrap().to_string_lossy().to_string();
+        crate::engine::crumb::set_case(&format!("C07 fixture {fname}"));
+        let Ok(bytes) = std::fs::read(path) else { return };
+        if bytes.is_empty() { return; }
+        let replay = || Replay { json: json!({"fixture": fname}), files: vec![] };
+        let r = guarded(|| -> Result<Vec<(String, String)>, String> {
+            let mut wb = match open_workbook_auto_from_rs(Cursor::new(bytes.clone())) { Ok(w) => w, Err(_) => return Ok(vec![("skipped".into(), String::new())]) };
+            let mut bad = vec![];
+            let names = wb.sheet_names();
+            let all = wb.worksheets();
+            for (i, n) in names.iter().enumerate() {
+                let by_name = wb.worksheet_range(n);
+                let by_idx = wb.worksheet_range_at(i);
+                let d = |r: &Result<Range<Data>, calamine::Error>| match r { Ok(r) => format!("Ok({})", range_digest(r)), Err(e) => format!("Err({})", format!("{e:?}").chars().take(60).collect::<String>()) };
+                match &by_idx { Some(b) if d(b) == d(&by_name) => {}, other => bad.push(("range-vs-range_at".to_string(), format!("sheet #{i} {n:?}: by name {}, by index {}", d(&by_name), other.as_ref().map(d).unwrap_or("None".into())))) }
+                let listed = all.iter().find(|(m, _)| m == n);
+                match (&by_name, listed) {
+                    (Ok(r), Some((_, w))) if range_digest(r) == range_digest(w) => {}
+                    (Ok(_), Some(_)) => bad.push(("range-vs-worksheets".into(), format!("sheet {n:?}: worksheets() holds different cells than worksheet_range"))),
+                    (Ok(_), None) => bad.push(("range-vs-worksheets".into(), format!("sheet {n:?} reads by name but worksheets() does not list it"))),
+                    (Err(e), _) if format!("{e:?}").contains("NotFound") && format!("{e:?}").contains("Worksheet") => bad.push(("listed-sheet-not-found".into(), format!("sheet {n:?} is listed by sheet_names() but worksheet_range says {e:?}"))),
+                    _ => {}
+                }
+                if let Err(e) = wb.worksheet_formula(n) { let t = format!("{e:?}"); if t.contains("Worksheet") && t.contains("NotFound") && by_name.is_ok() { bad.push(("formula-not-found".into(), format!("sheet {n:?}: worksheet_formula says {t}"))); } }
+            }
+            for (m, _) in &all { if !names.contains(m) { bad.push(("worksheets-unlisted-name".into(), format!("worksheets() yields {m:?}, which sheet_names() does not list"))); } }
+            if wb.worksheet_range("\u{1}no such sheet\u{1}").is_ok() { bad.push(("unknown-sheet".into(), "an unknown sheet name read successfully".into())); }
+            if wb.worksheet_range_at(names.len()).is_some() { bad.push(("range_at-out-of-range".into(), "worksheet_range_at(len) is not None".into())); }
+            bad.push(("sheets".into(), names.len().to_string()));
+            Ok(bad)
+        });
+        rep.eval(1);
+        match r {
+            Err(p) => { let site = normalise_site(p.rsplit(" @ ").next().unwrap_or("")); rep.fail(&format!("corpus/panic/{site}"), &format!("{fname}: panicked: {p}"), replay); }
+            Ok(Err(e)) => rep.fail("corpus/machinery", &format!("{fname}: {e}"), replay),
+            Ok(Ok(v)) => {
+                if v.first().map(|x| x.0.as_str()) == Some("skipped") { return; }
+                opened.fetch_add(1, std::sync::atomic::Ordering::Relaxed);
+                for (k, d) in &v {
+                    if k == "sheets" { sheets_checked.fetch_add(d.parse::<u64>().unwrap_or(0), std::sync::atomic::Ordering::Relaxed); continue; }
+                    rep.fail(&format!("corpus/{k}"), &format!("{fname}: {d}"), replay);
+                }
+                rep.case(hash_of(&("corpus", &fname)), true, hash_of(&format!("{v:?}")));
+            }
+        }
+        crate::engine::crumb::clear();
+    });
+    rep.extra("fixture_files_found", json!(files.len()));
+    rep.extra("fixture_files_opened", json!(opened.load(std::sync::atomic::Ordering::Relaxed)));
+    rep.extra("fixture_sheets_checked", json!(sheets_checked.load(std::sync::atomic::Ordering::Relaxed)));
+}
+
 pub fn check(rep: &Report) {
+    corpus_paths(rep);
     let t = crate::thorough(&rep.tier);
-    rep.rule("one feature-rich workbook per format (3 sheets incl. a chart sheet / hidden sheet, shared strings, 1-D and 2-D shared formulas, dates, two merged regions, a table, a VBA project, a defined name, a gap row); call alphabet = 13 Reader calls (ranges by name / index / unknown name, worksheets(), formulas, vba_project, metadata) + 3 header-row settings + the format's own calls (range_ref, merge cells, merged regions, tables); every call sequence of depth <= 3 (thorough 4) replayed on a fresh reader; oracle: each result equals the same call made first on a fresh reader under the option in force; plus access-path agreement and auto-detected reader == own reader; a state = a distinct call prefix; non-trivial = sequence of length >= 2");
+    rep.rule("one feature-rich workbook per format (3 sheets incl. a chart sheet / hidden sheet, shared strings, 1-D and 2-D shared formulas, dates, two merged regions, a table, a VBA project, a defined name, a gap row); call alphabet = 13 Reader calls (ranges by name / index / unknown name, worksheets(), formulas, vba_project, metadata) + 3 header-row settings + the format's own calls (range_ref, merge cells, merged regions, tables); every call sequence of depth <= 3 (thorough 5) replayed on a fresh reader; oracle: each result equals the same call made first on a fresh reader under the option in force; plus access-path agreement (also over every workbook under the repository's tests/ directory that opens) and auto-detected reader == own reader; a state = a distinct call prefix; non-trivial = sequence of length >= 2");
     rep.assume("results are compared through their Debug / digest rendering; error values by their first 80 characters");
-    let depth = if t { 4 } else { 3 };
+    let depth = if t { 5 } else { 3 };
     let results: Vec<(u64, u64)> = FORMATS.par_iter().map(|fmt| {
         let bytes = workbook(fmt);
         let ncalls = COMMON.len() + 3 + extra_calls(fmt).len();
@@ -377,6 +446,7 @@ pub fn check(rep: &Report) {
 pub fn replay(path: &str) -> i32 {
     let Ok(s) = std::fs::read_to_string(path) else { return 2 };
     let v: serde_json::Value = serde_json::from_str(&s).unwrap();
+    if let Some(f) = v.get("fixture").and_then(|f| f.as_str()) { println!("fixture tests/{f} of the repository: {}\n(re-run the check to observe it again; the file is not copied)", v["what"]); return 0; }
     let fmt = v["format"].as_str().unwrap().to_string();
     if v.get("twins").is_some() {
         let tb = twins_workbook(&fmt);
